@@ -20,7 +20,11 @@ BOUNDS_POOL = ["1", "2,1", "-1", "1:", ":2", "0", "-0", "+1", "2147483647", "214
                "{1{2}", "{1}}}", "{}", "{,}", "{1,}", "", " ", "{1}x{2}", "a{1:}b", "{-1}\\n{1}", "=x", ":=x", "1=", "1==", "é", "{1=é}", "1:2:3", "3:1",
                "-1:1", "1:-1", "-5:-1", "1:5=x", "{1:2147483647=}", " "]
 DELIMS = ["", "-", "é", "\t", "--", "aba", ",", "\\", "😎"]
-REGEXES = ["(", "[", "a**", "", ".*", "x*", "\\b", "(?i)a", "-|,,", "[-,]", "-+", "$", "^", "(?m)^", "\\pL", "é"]
+REGEXES = ["(", "[", "a**", "", ".*", "x*", "\\b", "(?i)a", "-|,,", "[-,]", "-+", "$", "^", "(?m)^", "\\pL", "é",
+           # valid on their own, but not necessarily once main wraps them as "(RE)+": a trailing verbose-mode comment swallows the ")+",
+           # nesting at the parser's limit, compiled size near the limit, a trailing flag group, an unclosed verbose class
+           "(?x)-#dash", "(?x) - # split on dashes", "(" * 249 + "-" + ")" * 249, "(" * 250 + "-" + ")" * 250, "(?x)#", "(?:a{100}){100}",
+           "(?:\\pL{50}){40}", "-(?x)#", "(?x:-)#", "-|(?x)", "\\", "-\\", "(?i)", "-{2}", "-{,2}", "-*?", "(?P<n>-)", "(?P<n>-)(?P<n>,)"]
 MVALS = ["0", "1", "64", "18014398509481984", "18446744073709551615", "99999999999999999999999", "-1", "abc", ""]
 TRIMS = ["l", "r", "b", "L", "x", ""]
 REPLS = ["", "::", "$0", "\\", "/", "é", "-"]
